@@ -1,4 +1,4 @@
-//! C01 / C02 (thorough only) — boundary probes beyond 2^32 bits: the upper
+//! C01 / C02 — boundary probes beyond 2^32 bits: the upper
 //! counters of RankSmall (one per 2^32 bits), the 64-bit span encoding of the
 //! adaptive selectors (ones more than 2^32 bits apart) and 32-bit overflow of
 //! in-block positions. A handful of shapes, not coverage of that regime.
@@ -29,7 +29,7 @@ fn main() {
         for &p in &ones {
             bv.set(p, true);
         }
-        let rank = |p: usize| ones.iter().filter(|&&o| o < p.min(len)).count();
+        let rank = |p: usize| ones.partition_point(|&o| o < p.min(len));
         let zero_at = |r: usize| -> Option<usize> {
             // position of the zero of rank r: skip the ones below it
             let mut p = r;
@@ -103,18 +103,31 @@ fn main() {
             };
             (@z false, $n:expr, $s:expr) => {};
         }
-        chk_rank!("Rank9", Rank9::new(bv.clone()));
-        chk_rank!("RankSmall<2,9>", rank_small![0; bv.clone()]);
-        chk_rank!("RankSmall<1,9>", rank_small![1; bv.clone()]);
-        chk_rank!("RankSmall<1,11>", rank_small![3; bv.clone()]);
-        chk_rank!("RankSmall<3,13>", rank_small![4; bv.clone()]);
-        chk_sel!("SelectZeroAdapt(SelectAdapt(AddNumBits))", SelectZeroAdapt::new(SelectAdapt::new(AddNumBits::from(bv.clone()), 3), 3), true);
-        chk_sel!("SelectZeroAdapt(SelectAdapt(AddNumBits))", SelectZeroAdapt::with_inv(SelectAdapt::with_inv(AddNumBits::from(bv.clone()), 1, 0), 12, 3), true);
-        chk_sel!("SelectZeroAdaptConst(SelectAdaptConst(AddNumBits))", SelectZeroAdaptConst::<_, _>::new(SelectAdaptConst::<_, _>::new(AddNumBits::from(bv.clone()))), true);
-        chk_sel!("SelectAdaptConst<1,0>(AddNumBits)", SelectAdaptConst::<_, _, 1, 0>::new(AddNumBits::from(bv.clone())), false);
-        chk_sel!("Select9(Rank9)", Select9::new(Rank9::new(bv.clone())), false);
-        chk_sel!("SelectZeroSmall(SelectSmall(RankSmall<1,9>))", SelectZeroSmall::<1, 9, _>::new(SelectSmall::<1, 9, _>::new(rank_small![1; bv.clone()])), true);
-        chk_sel!("SelectZeroSmall(SelectSmall(RankSmall<3,13>))", SelectZeroSmall::<3, 13, _>::new(SelectSmall::<3, 13, _>::new(rank_small![4; bv.clone()])), true);
+        chk_rank!("Rank9", Rank9::new(&bv));
+        chk_rank!("RankSmall<2,9>", rank_small![0; &bv]);
+        chk_rank!("RankSmall<1,9>", rank_small![1; &bv]);
+        chk_rank!("RankSmall<1,11>", rank_small![3; &bv]);
+        chk_rank!("RankSmall<3,13>", rank_small![4; &bv]);
+        chk_sel!("SelectZeroAdapt(SelectAdapt(AddNumBits))", SelectZeroAdapt::new(SelectAdapt::new(AddNumBits::from(&bv), 3), 3), true);
+        chk_sel!("SelectZeroAdapt(SelectAdapt(AddNumBits))", SelectZeroAdapt::with_inv(SelectAdapt::with_inv(AddNumBits::from(&bv), 1, 0), 12, 3), true);
+        if prop == "C02" {
+            for (inv, sub) in [(3usize, 3usize), (1, 0), (12, 3)] {
+                let a = SelectAdapt::with_inv(AddNumBits::from(&bv), inv, sub).verif_span_counts();
+                // (the zeros are 2^32 here: only the coarse zero inventory is affordable)
+                let z = if inv == 12 { SelectZeroAdapt::with_inv(AddNumBits::from(&bv), inv, sub).verif_span_counts() } else { [0; 4] };
+                for c in [a, z] {
+                    ctx.add("inventory_entries_u16_span", c[0] as u64);
+                    ctx.add("inventory_entries_u32_span", c[1] as u64);
+                    ctx.add("inventory_entries_u64_span", c[2] as u64);
+                    ctx.add("spill_words", c[3] as u64);
+                }
+            }
+        }
+        chk_sel!("SelectZeroAdaptConst(SelectAdaptConst(AddNumBits))", SelectZeroAdaptConst::<_, _>::new(SelectAdaptConst::<_, _>::new(AddNumBits::from(&bv))), true);
+        chk_sel!("SelectAdaptConst<1,0>(AddNumBits)", SelectAdaptConst::<_, _, 1, 0>::new(AddNumBits::from(&bv)), false);
+        chk_sel!("Select9(Rank9)", Select9::new(Rank9::new(&bv)), false);
+        chk_sel!("SelectZeroSmall(SelectSmall(RankSmall<1,9>))", SelectZeroSmall::<1, 9, _>::new(SelectSmall::<1, 9, _>::new(rank_small![1; &bv])), true);
+        chk_sel!("SelectZeroSmall(SelectSmall(RankSmall<3,13>))", SelectZeroSmall::<3, 13, _>::new(SelectSmall::<3, 13, _>::new(rank_small![4; &bv])), true);
     }
     ctx.finish();
 }
